@@ -200,3 +200,49 @@ func VerifH_C01_ipgenRetain() {
 	}
 	verifCover("done")
 }
+
+// VerifH_C01_ipgenOverlap: two address streams of one generator are open at the same time (the next
+// engine run starts while the previous stream is still pending): the second is drained first, then the
+// first; each delivers every address of the subnet exactly once.  /ONES with more addresses than the
+// 100-slot channel buffers; concrete execution with the engine's fixed random draws.
+func VerifH_C01_ipgenOverlap() {
+	ones := verifParam("ONES", 24)
+	base := []byte{172, 20, 8, 0}
+	mask := net.CIDRMask(ones, 32)
+	ig := NewIPGenerator()
+	size := 1 << uint(32-ones)
+	r := &Range{DstSubnet: &net.IPNet{IP: net.IP(base), Mask: mask}}
+	ch1, err1 := ig.IPs(context.Background(), r)
+	verifYield()
+	ch2, err2 := ig.IPs(context.Background(), r)
+	verifAssert(err1 == nil && err2 == nil, "valid IPv4 subnet refused")
+	if err1 != nil || err2 != nil {
+		return
+	}
+	for k, ch := range []<-chan IPGetter{ch2, ch1} {
+		seen := make([]bool, size)
+		n := 0
+		for g := range ch {
+			ip, gerr := g.GetIP()
+			verifAssert(gerr == nil && len(ip) == 4, "address generator produced an error element or a non-IPv4 address")
+			if len(ip) != 4 {
+				continue
+			}
+			verifAssert(ip[0] == 172 && ip[1] == 20, "address outside the target subnet")
+			off := (int(ip[2])<<8 | int(ip[3])) - 8<<8
+			if off >= 0 && off < size {
+				verifAssert(!seen[off], "an address was handed out twice in one stream")
+				seen[off] = true
+			} else {
+				verifAssert(false, "address outside the target subnet")
+			}
+			n++
+		}
+		if k == 0 {
+			verifAssert(n == size, "the later of two overlapping address streams is not a complete pass")
+		} else {
+			verifAssert(n == size, "the earlier of two overlapping address streams is not a complete pass")
+		}
+	}
+	verifCover("done")
+}
